@@ -102,7 +102,7 @@ def run(chk):
                 continue
             base = mmv.value(mmlib.ref(sn), 0, 0, 0)
             base[pn] = 1
-            req_fields.append({"cls": sn, "attr": snake_attr(sn, pn), "wire": pn, "base": base})
+            req_fields.append({"cls": sn, "attr": None, "wire": pn, "base": base})
         pr = V.run_py("r_val.py", input_=json.dumps({"values": vals, "fields": req_fields, "grid": grid}))
         if pr.returncode != 0:
             raise RuntimeError("r_val failed: " + pr.stderr[-2000:])
@@ -178,7 +178,7 @@ def replay(path):
         print("expected", inp["expected"], "observed", got)
         return 1 if got != inp["expected"] else 0
     if "class" in inp:
-        f = {"cls": inp["class"], "attr": snake_attr(inp["class"], inp["property"]), "wire": inp["property"], "base": inp["base"]}
+        f = {"cls": inp["class"], "attr": None, "wire": inp["property"], "base": inp["base"]}
         pr = V.run_py("r_val.py", input_=json.dumps({"values": [], "fields": [f], "grid": [inp["int"]]}))
         got = json.loads(pr.stdout)["fields"][0]
         print("expected accept", inp["expected_accept"], "observed", got)
